@@ -99,7 +99,7 @@ func idxOf(hs []mh.Multihash) ([]int, error) {
 }
 
 type ksOp struct {
-	Op     string `json:"op"` // put del get count has empty size restart reset resetcancel
+	Op     string `json:"op"`               // put del get count has empty size restart reset resetcancel
 	Keys   []int  `json:"keys,omitempty"`   // ranks into the universe
 	Prefix string `json:"prefix,omitempty"` // explicit bit string
 	Limit  int    `json:"limit,omitempty"`
